@@ -253,6 +253,40 @@ Definition model_pixel (m : mgrid) (q : Z) (h : how) (c : coord) (j k : Z) : opt
     end
   end.
 
+(* ---- requests on a cache that already holds tiles (TileManager._load_tile_coords + the re-check under the lock).
+   cached: the coordinates is_cached answers True for when the request starts.  Only the missing tiles are handed
+   to create_tiles; every creation step looks again, under the lock of the main tile, whether ALL tiles of the meta
+   tile are cached ("if not all(self.is_cached(t) for t in meta_tile.tiles if t is not None)") and then only loads.
+   (Requests without duplicate coordinates: the tiles stored by one step are not among those of a later step.) *)
+Definition all_cached (cached : list coord) (tiles : list coord) : bool :=
+  forallb (fun c => coord_mem c cached) tiles.
+
+Definition plan_with_cache (m : mgrid) (has_meta minimize bulk : bool) (cached tiles : list coord) : option (list step) :=
+  let unc := filter (fun c => negb (coord_mem c cached)) tiles in
+  match unc with
+  | [] => Some []
+  | _ =>
+    match create_plan m has_meta minimize bulk unc with
+    | None => None
+    | Some plan => Some (filter (fun st => negb (all_cached cached (snd st))) plan)
+    end
+  end.
+
+(* ---- colours: a second position-only picture whose four bands all carry information (alpha between 1 and 254
+   when the cache is transparent) and what TileSplitter.get_tile stores for a pixel:
+   result = create_image(tile_size, image_opts) is the background (bgcolor white, alpha 0 when transparent),
+   result.paste(crop, pos) WITHOUT mask copies all bands of the crop unchanged *)
+Definition rgba := (Z * Z * Z * Z)%type.
+Definition colour_of (transparent : bool) (v : Z * Z) : rgba :=
+  let '(vx, vy) := v in
+  (vx mod 256, vy mod 256, (vx * 7 + vy * 13) mod 255, if transparent then 1 + (vx + 3 * vy) mod 254 else 255).
+Definition background (transparent : bool) : rgba := (255, 255, 255, if transparent then 0 else 255).
+Definition stored_colour (transparent : bool) (p : option (Z * Z)) : rgba :=
+  match p with None => background transparent | Some v => colour_of transparent v end.
+Definition model_colour (m : mgrid) (q : Z) (h : how) (transparent : bool) (c : coord) (j k : Z) : option rgba :=
+  match model_pixel m q h c j k with None => None | Some p => Some (stored_colour transparent p) end.
+Definition orgba_eqb (a b : option rgba) : bool := opt_eqb Z4_eqb a b.
+
 (* ---- comparison helpers for the correspondence *)
 Definition Z2_eqb (a b : Z * Z) : bool := (fst a =? fst b) && (snd a =? snd b).
 Definition pat_item_eqb (a b : option coord * (Z * Z)) : bool :=
